@@ -8,9 +8,9 @@ from checks.pipeline import replay as _replay
 TRACE = ('Pkt_Trace.tla', 'Pkt_Trace.cfg')
 CHECKER = 'java -cp tla2tools.jar tlc2.TLC -workers 1 -config Pkt_Trace.cfg Pkt_Trace.tla (TRACE=<ndjson>); design level: PktDec_MC.tla with PktDec_MC_<bs0>_<bs1>_<hs>.cfg'
 SAFETY = {'NoCrash', 'CallsTerminate', 'LibraryNeverExits', 'UnknownEvent'}
-C11_RULES = {'Locality'} | SAFETY
+C11_RULES = {'Locality', 'LocalityCount', 'SamplesPerPacket'} | SAFETY
 C02_RULES = {'HeaderInReturnsDocumentedCode', 'SynthesisInitReturnsDocumentedCode', 'SynthesisReturnsDocumentedCode', 'BlockinReturnsDocumentedCode', 'ReadReturnsDocumentedCode',
-             'HalfRateReturnsDocumentedCode', 'BufferInsideRing', 'PendingNeverNegative', 'LapOutNonNegative', 'BlockinRefusedUntilRead', 'ReadRefusesMoreThanPending',
+             'HalfRateReturnsDocumentedCode', 'BufferInsideRing', 'PendingNeverNegative', 'LapOutNonNegative', 'BlockinRefusedUntilRead',
              'RestartSucceeds', 'InfoClearEmptiesInfo', 'NonHeaderRefused', 'InitNeedsAllHeaders'} | SAFETY
 C01_RULES = {'SamplesPerPacket', 'ValidHeaderAccepted', 'ValidPacketDecodes', 'InitSucceedsAfterHeaders', 'PcmOutReportsPending', 'FreshDecoderHoldsNothing',
              'ReadAdvancesByCount', 'RestartDropsPending', 'HalfRateRefusedFor64', 'HalfRateAccepted', 'HalfRateFlagTakesEffect'} | SAFETY
@@ -25,6 +25,7 @@ LINKS = {
   6: '2 44100 60 12000 13 sig=3',  # impulses: many short/long transitions
   7: '1 44100 40 1 14',
   8: '1 16000 20 0 15',
+  9: '2 44100 40 16000 16 sig=4',  # coupled stereo with one channel going exactly silent (its floor is flagged unused)
 }
 NA = {}   # audio packet count per link, learnt from the first trace (PNew events)
 
@@ -193,7 +194,7 @@ def check_c11(pid, tier, seed, replay=None):
     t0 = time.time(); q = tier == 'quick'
     rng, bindir, links, na, gps, pr = _common(pid, tier, seed)
     mc, problems = model_check('quick')
-    use = [0, 1, 2, 3, 5, 6]
+    use = [0, 1, 2, 3, 5, 6, 9]
     scns = fam_locality(rng, use, 14 if q else 300, na, thorough=not q)
     res = run_batch(pid, scns, bindir, 'pdh', *TRACE, prelude=prelude(use))
     res['infra'] += pr['infra']
